@@ -89,6 +89,24 @@ CheckRuns(mm) ==
           /\ IF ~Has(o, "stalled") THEN TRUE
              ELSE IF o.stalled = 0 THEN TRUE
              ELSE Report("slices", run.cfg, "slices that executed no instruction", 0, o.stalled)
+          \* twin history (C07): a probe behaves exactly as in the history in which the failing forms
+          \* were replaced by their completed effects -- outcome, value, error payload and stack trace
+          /\ IF ~Has(o, "twin") THEN TRUE
+             ELSE IF /\ o.r = o.twin.r
+                     /\ (Has(o, "v") = Has(o.twin, "v")) /\ (~Has(o, "v") \/ o.v = o.twin.v)
+                     /\ (Has(o, "u") = Has(o.twin, "u")) /\ (~Has(o, "u") \/ o.u = o.twin.u)
+                     /\ (Has(o, "tr") = Has(o.twin, "tr")) /\ (~Has(o, "tr") \/ o.tr = o.twin.tr)
+                  THEN TRUE
+             ELSE Report("twin", run.cfg, "probe differs from the residue-free twin history", o.twin,
+                         [r |-> o.r, tr |-> IF Has(o, "tr") THEN o.tr ELSE <<>>])
+          \* repeated identical failures (C07): no accumulation of stack capacity or live memory
+          /\ IF ~Has(o, "rep") THEN TRUE
+             ELSE IF Len(run.obs) < o.rep THEN TRUE
+             ELSE IF /\ o.cap = run.obs[o.rep].cap
+                     /\ (~(Has(o, "live") /\ Has(run.obs[o.rep], "live")) \/ o.live = run.obs[o.rep].live)
+                  THEN TRUE
+             ELSE Report("accumulation", run.cfg, "stack capacity or live cells grew over repeated identical failures",
+                         [cap |-> run.obs[o.rep].cap, live |-> run.obs[o.rep].live], [cap |-> o.cap, live |-> o.live])
           \* tail calls (C04): refinement bound on the control stack
           /\ IF ~(Has(Rec[si], "w") /\ Has(o, "maxsp") /\ mm.status = "done") THEN TRUE
              ELSE IF o.maxsp - o.sp0 <= StackBound(mm) THEN TRUE
